@@ -245,6 +245,42 @@ func checkTmSync(c *core.Ctx, sp tmSpec) {
 		}
 		return false, false
 	}), stores, "update of tracked validator hash / height", nil)
+	// the tracked height that is compared is the CURRENT one: within a batch the update of info.Height is
+	// followed, on the way to the next header's comparison, by a fresh read of it (a copy taken before the
+	// loop lets a lower header through after a higher one was accepted in the same call)
+	{
+		tr := func(v ssa.Value) bool { base, f, ok := fieldLoad(v); return ok && f == "Height" && isCallTo(base, get) }
+		var loads []ssa.Instruction
+		for _, cd := range ir.Conds(fn) {
+			b, ok := cd.V.(*ssa.BinOp)
+			if !ok {
+				continue
+			}
+			for _, op := range []ssa.Value{b.X, b.Y} {
+				if tr(op) && isFieldNamed(otherOperand(b, op), "Height") {
+					if in, isIn := ir.Strip(op).(ssa.Instruction); isIn {
+						loads = append(loads, in)
+					}
+				}
+			}
+		}
+		okFresh := len(loads) > 0
+		why := sprintf("%d comparison(s) of the tracked height", len(loads))
+		for _, s := range stores {
+			st := s.Instr.(*ssa.Store)
+			if fa, isFA := st.Addr.(*ssa.FieldAddr); !isFA || fieldNameOf(fa) != "Height" {
+				continue
+			}
+			r := ir.NewReach(fn).Run(st)
+			for _, l := range loads {
+				if !r.Instr(l) {
+					okFresh = false
+					why = "the tracked height compared at " + c.P.Rel(l.Pos()) + " is read once before the loop and never again after info.Height is advanced"
+				}
+			}
+		}
+		c.Decide(okFresh, "C30.epoch-advance", fn, "each header of a batch is compared with the tracked height as updated by the headers before it", c.P.Rel(fn.Pos()), why)
+	}
 	// the verified header is checked against that same info
 	for _, v := range ir.CallsTo(fn, vch) {
 		c.Decide(isCallTo(v.Common().Args[1], get), "C30.epoch-advance", fn, "VerifyCosmosHeader is given the tracked info", c.P.Rel(v.Pos()), "")
@@ -316,4 +352,11 @@ func checkTmDeposit(c *core.Ctx, pkg, typ, hs string) {
 		}
 		c.Decide(okSrc, "C30.existence-proof", fn, "the accepted message is decoded from the proven value", c.P.Rel(vv.Pos()), "")
 	}
+}
+
+func otherOperand(b *ssa.BinOp, op ssa.Value) ssa.Value {
+	if b.X == op {
+		return b.Y
+	}
+	return b.X
 }
